@@ -23,5 +23,5 @@ SPEC = {
 MANIFEST = {
     "technique": "Coq proof (invariants by induction over operation histories of an executable port of SetNode/RemoveNode/VerifyRegisterNodeArgs/VerifyNodeUpdate/registerNode/registerEntity/deregisterEntity/onRegistryEpochChanged; refutation witness by vm_compute) with differential correspondence check against the real registry code and an implementation-side index/authority oracle",
     "level_text": "Theorems in coq/Props/C17.v hold for every history and every key assignment: authority of node and entity record changes, rejection without state change of every registration with a missing signature / wrong transaction signer / node outside the entity's list, entity not removable while owning nodes or runtimes, and key-map / nodes-by-entity consistency (a) REFUTED for the code's SetNode order by a key-exchange update, (b) proved for all histories without such an exchange, (c) proved unconditionally for the reordered SetNode. The model is tied to the code by replaying seeded histories through the real state layer and through ExecuteTx/BeginBlock and comparing the complete public query surface after every operation; an independent Go oracle recomputes the indexes from the primary records.",
-    "level_note": "Trusted: Coq kernel; the harness; signatures abstracted to signer lists; consensus-address index and stake claims are compared in the correspondence check and by the oracle but have no theorem yet; runtimes are not modelled.",
+    "level_note": "Trusted: Coq kernel; the harness; signatures abstracted to signer lists; consensus-address index is compared in the correspondence check and by the oracle but has no theorem yet (stake claims: claims_mirror); runtimes are not modelled.",
 }
